@@ -594,6 +594,9 @@ func (ex *Exec) oblige(kind, label string, bad *smt.Term, detail string) {
 	if ex.eng.findingKeys[key] {
 		// already reported for this site: continue under "no violation"
 		if bad.IsTrue() {
+			if kind == "frozen-write" {
+				return // the write itself is harmless for the rest of the path
+			}
 			panic(pathEnd{kind: endPanic, msg: kind})
 		}
 		ex.addPC(tb.Not(bad))
@@ -633,6 +636,9 @@ func (ex *Exec) oblige(kind, label string, bad *smt.Term, detail string) {
 		fmt.Printf("  finding: %s %s %s %s %s\n", kind, label, fn, pos, detail)
 	}
 	if bad.IsTrue() {
+		if kind == "frozen-write" {
+			return
+		}
 		panic(pathEnd{kind: endPanic, msg: kind})
 	}
 	ex.addPC(tb.Not(bad))
